@@ -186,6 +186,25 @@ def gen(rng, idx, tier):
                       and g["name"] != ".notdef"]
             if comps_ and rng.random() < 0.7:
                 instr[rng.choice(comps_)] = max(instr.values()) + rng.choice([1, 4])
+            simple_ = [g["name"] for g in glyphs if g["contours"] and not g["components"]
+                       and g["name"] != ".notdef"]
+            if simple_ and rng.random() < 0.5 and not any(
+                    g["name"] in ("Ashared", "fshared", "nshared") for g in glyphs):
+                # a programmed composite whose bases SHARE components (A = c + f, f = c + n,
+                # n = c, c a composite itself) and which sorts, by name, in front of its own base: the compiled base
+                # must be in place when the composite is hashed for its program
+                b_ = simple_[0]
+                mk_ = lambda n_, cs_: {"name": n_, "width": 600, "unicodes": [], "contours": [],  # noqa: E731
+                                       "anchors": [], "components": [
+                                           {"base": c_, "t": [1, 0, 0, 1, 10 * k_, 5 * k_]}
+                                           for k_, c_ in enumerate(cs_)]}
+                glyphs.append(mk_("c1shared", [b_]))
+                glyphs.append(mk_("c2shared", ["c1shared"]))
+                glyphs.append(mk_("nshared", ["c2shared"]))
+                glyphs.append(mk_("fshared", ["c2shared", "nshared"]))
+                glyphs.append(mk_("Ashared", ["c2shared", "fshared"]))
+                instr["Ashared"] = 7
+                opts["flattenComponents"] = False
     return {"stratum": stratum, "fmt": fmt, "lib": rng.choice(["defcon", "ufoLib2"]),
             "instructions": instr,
             "ufo": {"glyphs": glyphs, "info": info, "lib": lib}, "opts": opts,
